@@ -46,17 +46,76 @@ open Saltpack
     | .ok x => .ok x
     | .unmodelled _ => .error why
 
+/-! ### which read consults the end of the stream
+
+  `Codec.blocks` (the mirror of the lister hook) stops at the first position where
+  a TYPED packet read fails.  A receiver consults that position in one of two ways:
+  it expects a further packet — a typed read, whose error `Codec.blocks` reports as
+  the tail — or, after a packet that is final, `assertEndOfStream` makes a GENERIC
+  read (`Read(&x)`, `x interface{}`): `io.EOF` = clean end, an object = trailing
+  garbage, anything else that error.  The two differ in exactly one case: an object
+  the typed decoder refuses (wrong type seen first) that is ALSO truncated — typed
+  read: decode error; generic read: `io.EOF`, a clean end (e.g. `c4 05 01` behind a
+  complete message: Go accepts the message).  Which of the two reads happens is
+  decided by the last packet decoded before the stop (`blockFinal`, the receivers'
+  own test), so the front end can hand over the right tail: -/
+
+/-- the typed reads stop at an object the typed decoder refuses whose generic read
+    runs into the end of the input (same walk as `Codec.blocks`) -/
+def truncatedStop {β : Type} (dec : Codec.Dec β) : Nat → Bytes → Bool
+  | 0, _ => false
+  | fuel + 1, b =>
+    match dec b with
+    | .ok (_, rest) => truncatedStop dec fuel rest
+    | .error (.err _) =>
+      (match Codec.generic b with
+       | .error .eof => true
+       | _ => false)
+    | .error _ => false
+
+/-- the last packet decoded is a final one: a receiver that gets this far reads the
+    end of the stream through `assertEndOfStream` -/
+def lastFinal {β : Type} (fin : β → Bool) (items : List (Option β)) : Bool :=
+  match items.getLast? with
+  | some (some b) => fin b
+  | _ => false
+
+/-- `Codec.split*`'s answer with the tail a receiver will see: behind a final packet
+    a truncated object the typed decoder refuses is a clean end (`assertEndOfStream`
+    reads generically) -/
+def settle {η β : Type} (decH : Codec.Dec η) (decB : η → Option (Codec.Dec β)) (fin : η → β → Bool) (msg : Bytes)
+    (c : Except String (HeaderRead η × PStream β)) : Except String (HeaderRead η × PStream β) :=
+  match c with
+  | .ok (.ok hb h, ps) =>
+    if ps.tail = .err .decodeError ∧ lastFinal (fin h) ps.items = true then
+      match Codec.readHeader decH msg, decB h with
+      | .ok (_, rest), some d =>
+        if truncatedStop d (rest.length + 1) rest then .ok (.ok hb h, ⟨ps.items, .eof⟩) else c
+      | _, _ => c
+    else c
+  | _ => c
+
 /-- what `NewDecryptStream`'s reads make of `msg` -/
 def readEnc (msg : Bytes) : Except String (HeaderRead EncHeader × PStream EncBlock) :=
-  orWire (Codec.splitEnc msg) (fun _ => Wire.splitEnc msg)
+  orWire
+    (settle Codec.decEncHeader
+      (fun h => if Codec.majorOK h.version.major then some (Codec.decEncBlock h.version.major) else none)
+      (fun h b => Decrypt.blockFinal h.version b) msg (Codec.splitEnc msg))
+    (fun _ => Wire.splitEnc msg)
 
 /-- what `NewSigncryptOpenStream`'s reads make of `msg` -/
 def readSigncrypt (msg : Bytes) : Except String (HeaderRead EncHeader × PStream SigncryptBlock) :=
-  orWire (Codec.splitSigncrypt msg) (fun _ => Wire.splitSigncrypt msg)
+  orWire
+    (settle Codec.decEncHeader (fun _ => some Codec.decSigncryptBlock) (fun _ b => b.final) msg (Codec.splitSigncrypt msg))
+    (fun _ => Wire.splitSigncrypt msg)
 
 /-- what `NewVerifyStream`'s reads make of `msg` -/
 def readSig (msg : Bytes) : Except String (HeaderRead SigHeader × PStream SigBlock) :=
-  orWire (Codec.splitSig msg) (fun _ => Wire.splitSig msg)
+  orWire
+    (settle Codec.decSigHeader
+      (fun h => if Codec.majorOK h.version.major then some (Codec.decSigBlock h.version.major) else none)
+      (fun h b => Sign.blockFinal h.version b) msg (Codec.splitSig msg))
+    (fun _ => Wire.splitSig msg)
 
 /-- the detached signature object as `VerifyDetachedReader` sees it.  A clean end
     of input: the code returns the decoder's RAW `io.EOF` here (`return nil, err` —
